@@ -7,21 +7,16 @@ unconditionally for the modelled APCI codec.
 import XknxVerif.Props.C13
 import XknxVerif.Props.C05
 import XknxVerif.Props.C06
+import XknxVerif.Model.CEMIFull
 
 namespace XknxVerif.Props.C13
 open XknxVerif XknxVerif.CEMI XknxVerif.APCI
 
-/-- the cEMI model's view of `APCI.from_knx` / `to_knx` / `calculated_length` -/
-def apciCodec : Codec Service :=
-  { decode := fun b => match decodeAPDU b with
-      | .ok s => .ok s
-      | .error .conv => .error .conv
-      | .error .unsupported => .error .unsup
-    encode := encodeAPDU
-    len := fun s => (calcLength s).getD 0 }
+/-- the codec the driver runs (`Model/CEMIFull.lean`) -/
+abbrev apciCodec : Codec Service := CEMIFull.apciCodec
 
 theorem apci_decode_ok {b : Bytes} {s : Service} (h : apciCodec.decode b = .ok s) : decodeAPDU b = .ok s := by
-  simp only [apciCodec] at h
+  simp only [apciCodec, CEMIFull.apciCodec] at h
   split at h
   · injection h with h; subst h; assumption
   · cases h
@@ -88,7 +83,7 @@ theorem apciCodec_laws : CodecLaws apciCodec where
   enc_dec := by
     intro a bs h
     have := (encode_facts a bs h).1
-    simp [apciCodec, this]
+    simp [apciCodec, CEMIFull.apciCodec, this]
   enc_len := fun a bs h => (encode_facts a bs h).2.1
   enc_head := fun a bs h => (encode_facts a bs h).2.2
 
@@ -99,7 +94,7 @@ theorem apciCodec_declaws : DecLaws apciCodec where
     have hd' := apci_decode_ok hd
     obtain ⟨_, hlen, _, _⟩ := C05.reencode apdu bs a hd' he
     obtain ⟨_, hl, hh⟩ := encode_facts a bs he
-    exact ⟨hlen, by simp only [apciCodec]; omega, hh⟩
+    exact ⟨hlen, by simp only [apciCodec, CEMIFull.apciCodec]; omega, hh⟩
 
 /-- Every well-formed link frame carrying a modelled APCI service round-trips (no hypothesis on the codec left). -/
 theorem apci_frame_roundtrip (code : Nat) (info : Bytes) (d : LData Service)
